@@ -247,6 +247,10 @@ func (c *Container) Peek(n int) []byte {
 	}
 
 	// Start gathering data.
+	// Never allocate more than is held, the requested amount may be untrusted.
+	if held := c.Length(); n > held {
+		n = held
+	}
 	slice := make([]byte, n)
 	copySlice := slice
 	n = 0
